@@ -157,6 +157,8 @@ REGISTRY["C14"] = {"modules": _ROBOT_MODS, "verify_modules": ["selector", "robot
                    "level_text": "Lifecycle half: contracts of run/start/periodic/disable/_on_autonomous_enable/_on_iteration with a typestate ghost per mode: the chosen mode (dashboard string if it names a mode, else the chooser) "
                                  "gets on_enable once, one on_iteration(t) per loop iteration with non-decreasing t, on_disable once; no other mode is touched. Discovery half (__init__): see level_note.",
                    "level_note": _ROBOT_NOTE + " The discovery loop of AutonomousModeSelector.__init__ (importlib/glob/inspect reflection) is not under contract; it is covered by a bounded native stand-in only.",
-                   "design_ref": "DESIGN.md section 5 C14", "claimed": False}
+                   "design_ref": "DESIGN.md section 5 C14",
+                   "replay": [PY, "native/replay_c14.py"],
+                   "standins": {"quick": {"bounded (the ONLY coverage of the discovery half): generated packages on disk, real imports - discovery, duplicates, defaults, failing imports/constructors, FMS on/off, start/periodic/disable lifecycle": [PY, "native/replay_c14.py"]}}}
 REGISTRY["C11"]["module_groups"] = [_ROBOT_MODS, ["tunable"]]
 REGISTRY["C11"]["standins"] = {"quick": {"bounded: real collect_feedbacks + real ntcore: keys (explicit / get_ prefix removed), topic types from return hints, published values": [PY, "native/replay_c09.py"]}}
